@@ -62,6 +62,33 @@ def gen_cases(rng, tier):
         rows = [[str(rng.randint(0, 9)) if rng.chance(0.8) else rng.pick(['x', '', '1.5']), rng.pick(['u', 'v']),
                  rng.pick(['1.5', '2', '0.25'])] for _ in range(rng.randint(1, 8))]
         cases.append({'kind': 'cast_schema', 'rows': rows, 'policy': rng.pick(['raise', 'drop', 'ignore', 'clear'])})
+    cases += gen_select_cases(rng, max(16, n // 4))
+    return cases
+
+
+PKG_NAMES = ['sales.2020', 'sales-2020', 'sales_2020', 'a', 'ab', 'a.b', 'a+', 'axb']
+
+
+def gen_select_cases(rng, n):
+    """loading a package (datapackage.json or a (descriptor, resources) pair) with a resources selector:
+    exactly the selected resources come back, each with its own rows"""
+    cases = []
+    for i in range(n):
+        # a name with a regex metacharacter together with a sibling that the name, read as a pattern, would match
+        pair = rng.pick([['sales.2020', 'sales-2020'], ['a.b', 'axb'], ['a+', 'a'], ['sales.2020', 'sales_2020']])
+        names = pair + [x for x in rng.sample(PKG_NAMES, rng.randint(0, 2)) if x not in pair]
+        rng.shuffle(names)
+        k = rng.randint(0, 3)
+        if k == 0:
+            sel = ['none', None]
+        elif k == 1:
+            sel = ['list', [pair[0]] + [x for x in names if x not in pair and rng.chance(0.4)]]
+        elif k == 2:
+            sel = ['int', rng.pick([names.index(pair[0]), names.index(pair[0]) - len(names), rng.randint(-len(names), len(names) - 1)])]
+        else:
+            sel = ['re', rng.pick([names[0].replace('+', '\\+'), 'sales.2020', 'a.b', 'a.*', 'sales.*', 'a\\+', '.*2020'])]
+        cases.append({'kind': 'pkgselect', 'names': names, 'sel': sel, 'how': rng.pick(['dp', 'tuple']),
+                      'nrows': [rng.randint(0, 3) for _ in names]})
     return cases
 
 
@@ -78,8 +105,33 @@ def write_csv_file(headers, rows):
     return buf.getvalue()
 
 
+def run_pkgselect(case):
+    import shutil
+    res = [{'name': nm, 'fields': [{'name': 'i', 'type': 'integer'}, {'name': 'src', 'type': 'string'}],
+            'rows': [{'i': j, 'src': nm} for j in range(nr)]} for nm, nr in zip(case['names'], case['nrows'])]
+    sel = case['sel'][1]
+    d = os.path.join(scratch(), 'ps_%s' % digest(case))
+    shutil.rmtree(d, ignore_errors=True)
+    try:
+        if case['how'] == 'dp':
+            with quiet():
+                Flow(Src(res), DF.dump_to_path(d)).process()
+            step = Load(os.path.join(d, 'datapackage.json'), resources=sel)
+        else:
+            ds = Flow(Src(res)).datastream()
+            step = Load((ds.dp.descriptor, ds.res_iter), resources=sel)
+        out = run_stream([], [step])
+    finally:
+        shutil.rmtree(d, ignore_errors=True)
+    if 'error' in out:
+        return {'error': out['error'], 'exc': out['exc']}
+    return {'names': [r['name'] for r in out['dp']['resources']], 'rows': [rows_enc(x) for x in out['rows']]}
+
+
 def run_impl(case):
     k = case['kind']
+    if k == 'pkgselect':
+        return run_pkgselect(case)
     if k == 'headers':
         return {'headers': Load.rename_duplicate_headers(list(case['headers']), case_sensitive=case['cs'],
                                                          deduplicate_format=case['fmt'][0] + '%s' + case['fmt'][1])}
@@ -151,6 +203,26 @@ def true_parse(text):
 
 def oracle(case, out):
     k = case['kind']
+    if k == 'pkgselect':
+        import re as _re
+        names, (form, sel) = case['names'], case['sel']
+        if form == 'none':
+            want = list(names)
+        elif form == 'list':
+            want = [x for x in names if x in sel]
+        elif form == 'int':
+            want = [names[sel]]
+        else:
+            want = [x for x in names if _re.fullmatch(sel, x)]
+        if 'error' in out:
+            return 'load(%s, resources=%r) failed: %s' % (case['how'], sel, out['exc'])
+        if out['names'] != want:
+            return 'load(%s, resources=%r) of %r selected %r, the selector means %r' % (case['how'], sel, names, out['names'], want)
+        for nm, rows in zip(out['names'], out['rows']):
+            exp = [{'i': j, 'src': nm} for j in range(case['nrows'][names.index(nm)])]
+            if rows_dec(rows) != exp:
+                return 'load(%s, resources=%r): resource %r came back with rows %r' % (case['how'], sel, nm, rows_dec(rows)[:3])
+        return None
     if k == 'headers':
         got = out['headers']
         if len(got) != len(case['headers']):
@@ -269,6 +341,14 @@ def finding(case, out, failure):
 
 def coq_term(case, out):
     k = case['kind']
+    if k == 'pkgselect':
+        if 'error' in out:
+            return None
+        # the loader pairs descriptors and iterators through one predicate, in order (C13_selection_pairs)
+        pairs = clist([cpair(cstr(nm), cnat(nr)) for nm, nr in zip(case['names'], case['nrows'])])
+        got = clist([cpair(cstr(nm), cnat(len(r))) for nm, r in zip(out['names'], out['rows'])])
+        return ('list_eqb (fun a b => str_eqb (fst a) (fst b) && Nat.eqb (snd a) (snd b)) '
+                '(select_pairs (fun n => str_in n %s) (fun x => x) %s) %s' % (cstrs(out['names']), pairs, got))
     if k == 'headers':
         return 'list_eqb str_eqb (rename_duplicate_headers %s %s %s %s) %s' % (
             cbool(case['cs']), cstr(case['fmt'][0]), cstr(case['fmt'][1]), cstrs(case['headers']), cstrs(out['headers']))
